@@ -1162,6 +1162,24 @@ fn check_live_state(solver: &mut DefaultSolver<f64>, r: &Req, stage: &str, check
     Ok(())
 }
 
+/// `solve()` with the loop observer on; returns false when the loop ended on a FAILED
+/// scaling update: `CompositeCone::update_scaling` stops at the first failing cone, so the
+/// cones before it hold the new scaling while the KKT matrix (never updated in that pass)
+/// holds the previous one.  That is not a state "after a scaling update"; the next solve
+/// starts with a complete scaling update, so nothing is read from it.
+fn solve_observed(solver: &mut DefaultSolver<f64>) -> bool {
+    use clarabel::verif_hooks::observer::{self, Event};
+    observer::start();
+    solver.solve();
+    let ev = observer::take();
+    for e in ev.iter().rev() {
+        if let Event::Flag("scaling_success", v) = e {
+            return !v.starts_with("(false");
+        }
+    }
+    true
+}
+
 fn live_settings(r: &Req) -> DefaultSettings<f64> {
     let mut settings = DefaultSettings::<f64>::default();
     settings.verbose = false;
@@ -1184,7 +1202,7 @@ fn run_live(r: &Req) -> String {
     let cones = parse_cones(r.str("cones"));
     let resolve = if r.has("resolve") { r.str("resolve").to_string() } else { "none".to_string() };
     let mut solver = DefaultSolver::<f64>::new(&P, &q, &A, &b, &cones, live_settings(r));
-    solver.solve();
+    let scaled_ok = solve_observed(&mut solver);
     let symmetric = solver.cones.is_symmetric();
     let mut stages = vec![];
     // nonsymmetric start: no KKT update has happened before the first pass of the loop, the
@@ -1192,6 +1210,8 @@ fn run_live(r: &Req) -> String {
     let never_updated = solver.solution.iterations == 0 && !symmetric;
     if never_updated {
         stages.push("first:never-updated".to_string());
+    } else if !scaled_ok {
+        stages.push("first:ended-on-failed-scaling".to_string());
     } else {
         if let Err(e) = check_live_state(&mut solver, r, "first", true) {
             return format!("FAIL {}", e).replace(' ', "_");
@@ -1218,7 +1238,8 @@ fn run_live(r: &Req) -> String {
     // re-solve stopped right after default_start
     solver.settings.max_iter = 0;
     solver.solve();
-    if !(never_updated && !symmetric) {
+    // (a nonsymmetric restart does not touch cones or KKT: it inherits the end state above)
+    if !(never_updated && !symmetric) && (symmetric || scaled_ok) {
         // `update_P` writes the raw P diagonal into the LDL engine's copy; `±ε` is re-applied
         // by the next `regularize_and_refactor`, which a nonsymmetric `default_start` does not run
         let refactored = symmetric || resolve != "update";
@@ -1249,8 +1270,8 @@ fn run_live(r: &Req) -> String {
     }
     // full re-solve
     solver.settings.max_iter = (r.u("maxiter") as u32).max(3);
-    solver.solve();
-    if !(solver.solution.iterations == 0 && !symmetric && never_updated) {
+    let scaled_ok2 = solve_observed(&mut solver);
+    if !(solver.solution.iterations == 0 && !symmetric && never_updated) && scaled_ok2 {
         if let Err(e) = check_live_state(&mut solver, r, "second", true) {
             return format!("FAIL {}", e).replace(' ', "_");
         }
